@@ -3,10 +3,12 @@
 wt="$1"
 cd "$wt" || exit 3
 echo "== $wt"
+git checkout -q -- dask_array 2>/dev/null
+git apply _seed/patch.diff || { echo "patch does not apply to a clean tree"; exit 3; }
 PYTHONPATH="$wt" /venv/bin/python -c "import dask_array; print(dask_array.__file__)"
 PYTHONPATH="$wt" /venv/bin/python -m pytest -q -p no:cacheprovider -n 8 --timeout=900 dask_array 2>&1 | tail -1
 PYTHONPATH="$wt" /venv/bin/python _seed/demo.py > /tmp/demo_with.txt 2>&1; echo "demo with change: exit=$?"
-git stash -q
+git apply -R _seed/patch.diff
 PYTHONPATH="$wt" /venv/bin/python _seed/demo.py > /tmp/demo_without.txt 2>&1; echo "demo without change: exit=$?"
-git stash pop -q
+git apply _seed/patch.diff
 git status --short | grep -v '^??' | head -3
